@@ -222,6 +222,16 @@ class Interp:
         # another filler: inline it
         if self.reaches_registration(target):
             return self.run(target, bound)
+        # a small pure helper whose body is one return expression (e.g. a local `pair(a, b, c, d)` building both closures)
+        body = [st for st in target.node.body if not (isinstance(st, ast.Expr) and isinstance(st.value, ast.Constant))]
+        if len(body) == 1 and isinstance(body[0], ast.Return) and body[0].value is not None and self.depth < 12:
+            henv = dict(env) if target.parent is not None else {}
+            henv.update(bound)
+            self.depth += 1
+            try:
+                return self.ev(body[0].value, henv, target)
+            finally:
+                self.depth -= 1
         return Unknown("call of %s" % target.qual)
 
     # ---------------------------------------------------------------- classification helpers
@@ -237,6 +247,14 @@ class Interp:
                 rets = [n for n in fn.node.body if isinstance(n, ast.Return)]
                 if len(inner) == 1 and len(rets) == 1 and isinstance(rets[0].value, ast.Name) and rets[0].value.id == inner[0].name:
                     ok = True
+                # `return tag(ret, a, b, c, d)` where `tag` hands its first argument back (it only stamps attributes on it)
+                elif len(inner) == 1 and len(rets) == 1 and isinstance(rets[0].value, ast.Call) and isinstance(rets[0].value.func, ast.Name) and rets[0].value.args \
+                        and isinstance(rets[0].value.args[0], ast.Name) and rets[0].value.args[0].id == inner[0].name:
+                    h = self.m.module_funcs.get(fn.module, {}).get(rets[0].value.func.id)
+                    if h is not None and h.params:
+                        hrets = [n for n in ast.walk(h.node) if isinstance(n, ast.Return)]
+                        if hrets and all(isinstance(r.value, ast.Name) and r.value.id == h.params[0] for r in hrets):
+                            ok = True
             self._factory_cache[fn.qual] = ok
         return self._factory_cache[fn.qual]
 
